@@ -585,3 +585,75 @@ def _same_iteration(idx, elem):
         return True
     # index(src, site) vs elem(src, site)
     return isinstance(ri, tuple) and isinstance(re_, tuple) and len(ri) >= 3 and len(re_) >= 3 and ri[1:3] == re_[1:3]
+
+
+def is_snapshot(term):
+    """does iterating `term` walk a copy of the underlying container (list(x), x[:], x.copy(), sorted(x), tuple(x))
+    rather than the live object (x, enumerate(x), reversed(x), iter(x), x.items())?"""
+    t = term
+    for _ in range(8):
+        if not isinstance(t, tuple):
+            return False
+        if t[0] == "sub" and isinstance(t[2], tuple) and t[2][0] == "slice":
+            return True
+        if t[0] == "call" and t[1] in (("name", "list"), ("name", "tuple"), ("name", "sorted"), ("name", "set"), ("name", "frozenset")) and t[2]:
+            return True
+        if t[0] == "listof":
+            return True
+        if t[0] == "call" and isinstance(t[1], tuple) and t[1][0] == "attr" and t[1][2] == "copy" and not t[2]:
+            return True
+        if t[0] == "call" and t[1] in (("name", "enumerate"), ("name", "iter"), ("name", "reversed")) and t[2]:
+            t = t[2][0]
+            continue
+        if t[0] == "call" and isinstance(t[1], tuple) and t[1][0] == "attr" and t[1][2] in ("keys", "values", "items") and not t[2]:
+            t = t[1][1]
+            continue
+        if t[0] in ("elem", "index", "unpack"):
+            t = t[1]
+            continue
+        return False
+    return False
+
+
+def iteration_rule(ctx, rep, Qx, rule):
+    """every iteration over a lock-guarded queue walks it with the owner's lock held, or walks a copy: an iterator
+    over the live list skips / repeats entries when another thread removes one meanwhile"""
+    n = 0
+    callers = ctx.callgraph()
+    for fi in sorted(ctx.prog.functions.values(), key=lambda f: f.key):
+        if fi.parent is not None or fi.name == "__init__":
+            continue
+        for ci in ctx.instances(fi):
+            ps, it = ctx.paths(fi, ci, depth=0)
+            for p in ps:
+                for e in p.evs("loop"):
+                    if e.d[0] != "enter" or e.fn is not fi or e.d[1] is None:
+                        continue
+                    src = e.d[1]
+                    c = container_of(src)
+                    if not Qx.is_queue(c, it, p):
+                        continue
+                    n += 1
+                    ok = is_snapshot(src) or Qx.lock_held(e, c[1])
+                    if not ok:
+                        cs = callers.get(fi.key, set())
+                        ok = bool(cs) and all(_caller_holds(ctx, fi, ck, cik, Qx) for ck, cik in cs)
+                    rep.ob(rule, "%s: iteration over the %s queue is protected" % (fi.qualname, Qx.cls.name), ok, "the live %s is iterated without the executor lock and without taking a copy first: a concurrent removal makes the iterator skip an entry (the job of a finished attempt is then not found)" % fmt(c), where_of_(fi, e), None)
+    return n
+
+
+def where_of_(fi, e):
+    return "%s:%d (%s)" % (fi.module.relpath, getattr(e.node, "lineno", 0), fi.qualname)
+
+
+def _caller_holds(ctx, fi, ck, cik, Qx):
+    cfi = ctx.prog.functions[ck]
+    cci = ctx.prog.classes.get(cik) if cik else None
+    ps, it = ctx.paths(cfi, cci, depth=0)
+    for p in ps:
+        for e in p.calls():
+            if e.d["callee"] is fi and e.fn is cfi:
+                r = q.recv(e)
+                if not (r is not None and Qx.lock_held(e, r)):
+                    return False
+    return True
